@@ -24,6 +24,22 @@ log = logging.getLogger(__name__)
 _compilers = None
 
 
+class _UndefineAction(argparse.Action):
+    """
+    A custom argparse.Action that records -U among the -D definitions, so
+    that both can be processed in command-line order.
+    """
+
+    def __call__(
+        self,
+        parser: argparse.ArgumentParser,
+        namespace: argparse.Namespace,
+        values: str,
+        option_string: str,
+    ):
+        getattr(namespace, self.dest).append((option_string, values))
+
+
 class _StoreSplitAction(argparse.Action):
     """
     A custom argparse.Action that splits the value based on a user-provided
@@ -362,6 +378,7 @@ class ArgumentParser:
             allow_abbrev=False,
         )
         parser.add_argument("-D", dest="defines", action="append")
+        parser.add_argument("-U", dest="defines", action=_UndefineAction)
         parser.add_argument("-I", dest="include_paths", action="append")
         parser.add_argument(
             "-isystem",
@@ -416,6 +433,18 @@ class ArgumentParser:
         args, unrecognized = parser.parse_known_args(split_argv, namespace)
         if unrecognized:
             log.warning(f"Unrecognized arguments: '{' '.join(unrecognized)}'")
+
+        # -D and -U are processed in command-line order: -U cancels earlier
+        # definitions of a macro, and the last of several definitions wins.
+        defines = {}
+        for define in args.defines:
+            if isinstance(define, tuple):
+                defines.pop(define[1], None)
+                continue
+            name = re.split("[=(]", define, maxsplit=1)[0]
+            defines.pop(name, None)
+            defines[name] = define
+        args.defines = list(defines.values())
 
         # Directories given with -isystem are searched after all directories
         # given with -I, whatever their order on the command line.
